@@ -111,6 +111,18 @@ impl Suite for S {
     }
     fn setup_deser(&self, bytes: &[u8], ext: bool) -> Result<St, Res> {
         if ext {
+            // the key goes onto the device; opaque-ke is given seed || HANDLE || fake key
+            let l = self.lens();
+            if bytes.len() != l.nh + 2 * l.nsk {
+                return Err(Res::DecodeErr);
+            }
+            if PrivateKey::<Ke>::deserialize(&bytes[l.nh..l.nh + l.nsk]).is_err() {
+                return Err(Res::DecodeErr);
+            }
+            let mut with_handle = bytes[..l.nh].to_vec();
+            with_handle.extend_from_slice(&crate::extkey::handle_for(&bytes[l.nh..l.nh + l.nsk]));
+            with_handle.extend_from_slice(&bytes[l.nh + l.nsk..]);
+            let bytes = &with_handle[..];
             match ServerSetup::<Cs, XKey>::deserialize(bytes) {
                 Ok(s) => Ok(Box::new(SetupSt::Ext(s))),
                 Err(ProtocolError::LibraryError(InternalError::Custom(c))) => Err(Res::Custom(c.0)),
@@ -125,7 +137,16 @@ impl Suite for S {
     fn setup_ser(&self, st: &St) -> Vec<u8> {
         match dc::<SetupSt>(st) {
             SetupSt::Direct(s) => s.serialize().to_vec(),
-            SetupSt::Ext(s) => s.serialize().to_vec(),
+            SetupSt::Ext(s) => {
+                // logical view for the harness: the key behind the handle
+                let l = self.lens();
+                let raw = s.serialize().to_vec();
+                let key = crate::extkey::key_behind(&raw[l.nh..l.nh + l.nsk]).expect("handle");
+                let mut v = raw[..l.nh].to_vec();
+                v.extend_from_slice(&key);
+                v.extend_from_slice(&raw[l.nh + l.nsk..]);
+                v
+            }
         }
     }
     fn setup_spk(&self, st: &St) -> Vec<u8> {
